@@ -311,7 +311,7 @@ def work_core(task):
     if with_variants:
         r = RECS[rec]
         for opts in pts[:: max(1, len(pts) // 4)]:
-            us = ["0", "1", "-1", "mix", "avg", "any"] if r["ch"] > 1 else ["0", "mix"]
+            us = ["0", "1", "-1", "mix", "avg", "any"] if r["ch"] > 1 else ["0", "mix", "1", "-1"]  # mono ignores the selection
             for u in us:
                 one(dict(opts, u=u))
             dur = len(rec_data(rec)) / (r["rate"] * r["sw"] * r["ch"])
@@ -413,12 +413,13 @@ def misc(rep, tier):
                 if msg:
                     rep.violation("cli -j %s rec=%s input=%s" % (j, rec, kind), msg,
                                   {"kind": "climisc", "what": "-j", "j": j, "rec": rec, "input": kind})
-        # -j without -O: status 1, nothing on stdout
-        rep.add("evaluations")
-        res = run_cli(argv_from(opts) + ["-j", "0.1"], rec, "wav", wd)
-        if res.status != 1 or res.stdout != "":
-            rep.violation("cli -j without -O rec=%s" % rec, "status %r, stdout %r" % (res.status, res.stdout[:60]),
-                          {"kind": "climisc", "what": "-j-noO", "rec": rec})
+        # -j without -O: status 1, nothing on stdout (whatever the value, 0 included)
+        for jv in ("0.1", "0", "0.0", "2"):
+            rep.add("evaluations")
+            res = run_cli(argv_from(opts) + ["-j", jv], rec, "wav", wd)
+            if res.status != 1 or res.stdout != "":
+                rep.violation("cli -j %s without -O rec=%s" % (jv, rec), "-j %s without -O: status %r, stdout %r" % (jv, res.status, res.stdout[:60]),
+                              {"kind": "climisc", "what": "-j-noO", "rec": rec})
         # unknown time format directive: an error
         rep.add("evaluations")
         try:
@@ -457,6 +458,13 @@ def misc(rep, tier):
     msg = check_run(res, "many", opts)
     if msg:
         rep.violation("cli many detections", msg[:400], {"kind": "climisc", "what": "many"})
+    # ... and the same long run while the region saver is dead from its first detection on: every line is still printed
+    rep.add("evaluations")
+    RECS["many300"] = dict(rate=1000, sw=2, ch=1, spec="L." * 300)
+    res = run_cli(argv_from(opts) + ["-o", "<WD>no_such_dir/ev_{id}.wav"], "many300", "wav", wd)
+    msg = check_run(res, "many300", opts, tolerate=("RegionSaverWorker",))
+    if msg:
+        rep.violation("cli many detections, dead observer", msg[:400], {"kind": "climisc", "what": "many-bad-o"})
     # --printf: typed escapes (\\n \\t \\r) together with ordinary and non-ASCII text
     for pf in ("{id}\\t{start} -> {end}", "{id} \u00c9v\u00e9nement {start}", "{id}\\t\u00c9v\u00e9nement \u2192 {start}\\n--", "[{id}] 100% {start}",
                "{id} back\\\\slash {start}", "@{id} {start} {end}", "@", "+{id}", "{id} @{start} -{end}"):
